@@ -3,7 +3,7 @@ from __future__ import annotations
 
 import importlib
 
-OP_MODULES = ["contracts.c05", "contracts.c06"]
+OP_MODULES = ["contracts.c05", "contracts.c06", "contracts.c11", "contracts.c13"]
 MONITOR_MODULES = ["contracts.c26"]
 
 
@@ -58,6 +58,9 @@ FAMILIES = {
     "C05": ["op"],
     "C06": ["op"],
     "C07": ["slice"],
+    "C11": ["op"],
+    "C12": ["op"],
+    "C13": ["op"],
     "C28": ["vts"],
     "C29": ["vts"],
     "C25": ["monitor"],
